@@ -292,9 +292,31 @@ def check(res):
             ranks.append(list(range(n)))
         else:
             ranks.append([int(x) for x in o["ranks"].split(",")] if o and "ranks" in o else None)
-    model_in = "\n".join(case_line(c, True, r) for c, r in zip(cases, ranks)) + "\n"
-    rc, model_lines, err = run_lines(model, ["rb"], model_in)
-    mobs = [split_fields(l) for l in model_lines]
+    # the extracted model's cost is quadratic in the length of a run: runs of more than MODEL_MAX keys are judged by the oracle (and the
+    # bulk validation) only; the others are spread over the cores
+    MODEL_MAX = 20000
+    mlines = [case_line(c, True, r) if len(c[3]) <= MODEL_MAX else "own int" for c, r in zip(cases, ranks)]
+    import concurrent.futures as cf
+    order = sorted(range(len(mlines)), key=lambda i: -len(mlines[i]))
+    chunks = [order[k::NCPU] for k in range(NCPU)]
+
+    def run_chunk(ix):
+        if not ix:
+            return ix, 0, [], ""
+        rc_, ls_, err_ = run_lines(model, ["rb"], "\n".join(mlines[i] for i in ix) + "\n")
+        return ix, rc_, ls_, err_
+    model_lines = [""] * len(mlines)
+    err = ""
+    with cf.ThreadPoolExecutor(max_workers=NCPU) as ex:
+        for ix, rc_, ls_, err_ in ex.map(run_chunk, chunks):
+            err += err_ or ""
+            if len(ls_) == len(ix):
+                for i, l in zip(ix, ls_):
+                    model_lines[i] = l
+            else:
+                model_lines = model_lines[:0]            # a chunk is short: reported below as a line-count difference
+                break
+    mobs = [split_fields(l) if (l and len(cases[i][3]) <= MODEL_MAX) else {} for i, l in enumerate(model_lines)]
     tags = set()
     nviol = 0
     ndiff = 0
@@ -313,7 +335,7 @@ def check(res):
                 res.violation("oracle:%s/%s" % (c[0], c[1]), "red-black tree invariant violated: " + errs[0],
                               {"case": case_line(c)[:2000], "errors": errs[:5], "observed": {k: v[:400] for k, v in o.items()},
                                "rerun": "echo '<case>' | build/<hash>/asan/rb_driver"})
-        if i < len(mobs):
+        if i < len(mobs) and mobs[i]:
             m = mobs[i]
             if "tags" in m:
                 tags.update(m["tags"].split(","))
@@ -329,7 +351,9 @@ def check(res):
     # long patterned runs, validated by the driver itself in one pass (search order, colours, black counts, parent links, every key
     # found, no other key found, size): trees deep enough (35+ levels) to pass any fixed walk bound a balanced tree "cannot" reach
     bulk_n = 400000 if tier == "quick" else 3000000
+    deep_n = 3400000 if tier == "quick" else 14000000          # sorted runs this long give paths of 41 / 45 nodes
     bulk = ["bulk %s %s %d" % (fl, pat, n) for fl in ("own", "chain") for pat in ("asc", "desc", "organ", "zig") for n in (bulk_n,)] + \
+           ["bulk %s asc %d" % (fl, deep_n) for fl in ("own", "chain")] + \
            ["bulk own asc 0", "bulk chain asc 1", "bulk own desc 2"]
     bouts, bcr = run_cases(exe, bulk, env=SAN_ENV)
     for idx, err in bcr[:2]:
